@@ -133,7 +133,9 @@ impl FieldElement for BaseElement {
     fn double(self) -> Self {
         let ret = (self.0 as u128) << 1;
         let (result, over) = (ret as u64, (ret >> 64) as u64);
-        Self(result.wrapping_sub(M * over))
+        let result = result.wrapping_sub(M * over);
+        // without overflow the doubled value can still be in [M, 2^64); reduce it
+        Self(result.wrapping_sub(M * ((result >= M) as u64)))
     }
 
     #[inline]
